@@ -1,35 +1,42 @@
-/* ASSUMED (oracle) contracts for the algebraic residue of the range-proof module (C09, C10, C07).
- * Same rules as assumed.h: pointer validity the callee needs, frame, representation invariant of
- * the outputs, return in {0,1}, and a ghost call log.  None states an algebraic fact.
+/* ASSUMED (oracle) specifications for the algebraic residue of the range-proof module (C09, C10, C07),
+ * plus the PROVED leaf contracts these units rely on.  Same rules as assumed.h: pointer validity the
+ * callee needs (checked at every call site), frame, representation invariant of the outputs, return in
+ * {0,1}, and a ghost call log.  None states an algebraic fact.
  *
- * Ghost logs here are WATCH style (as in hash_log.h): the harness fixes a watch selector
- * (g_*_watch / g_rp_k) that neither code nor contracts ever assign; the contract records the
- * arguments/result of call number == watch.  An assertion about the watched call is therefore a
- * statement about every call.  g_rp_k is a ghost array index used the same way for "for all k".
+ * Two mechanisms, selected by macros defined before the include:
  *
- * Sections are selected by macros defined before the include:
- *   RP_XQUAD  RP_ISSQUARE  RP_ADD_GE  RP_ADD_VAR  RP_PED_SMALL  RP_PED  RP_PUB_EXPAND
- *   RP_BORRO_VERIFY  RP_BORRO_SIGN  RP_GENRAND  RP_RECOVER  RP_HMAC  RP_MEMCPY  RP_ECMULT_WATCH
- *   proved leaf contracts: RP_LEAF_ENFORCE (C10.leaf_* units)  RP_STUB_READERS  RP_GET_B32  RP_CH32XOR  RP_MEMCPY_WHOLE
- * RP_ECMULT_WATCH brings its own contracts for secp256k1_ecmult / secp256k1_ge_set_gej_var and
- * therefore must be used with hash_log.h/pre.h, not with assumed.h. */
+ *  (A) DFCC contracts on redeclarations (replace=[...] in the unit table) - used for callees that are
+ *      defined in the same source file as their caller and are called once or a few times:
+ *        RP_PUB_EXPAND  RP_GENRAND  RP_CH32XOR  RP_LEAF_ENFORCE (enforced, units C10.leaf_*)
+ *
+ *  (B) CALL-SITE STUBS - used for callees invoked inside the 32-ring / 128-member loops.  A DFCC contract
+ *      replacement costs ~2000 SSA steps per call site (measured: verify_impl with 2 rings = 6.7 M SAT
+ *      variables, 32 rings does not fit in memory); a stub costs ~50.  The stub is an ordinary C function
+ *      with the contract's meaning: it ASSERTS the callee's preconditions (obligations at every call
+ *      site), writes arbitrary values constrained only by the representation invariant to exactly the
+ *      objects the callee may write, and records the ghost log.  Substitution is by a preprocessor rename
+ *      of the USES that follow this header: the real definitions (field_impl.h, scalar_impl.h,
+ *      group_impl.h, hash_impl.h, pedersen_impl.h, borromean_impl.h, ecmult_impl.h) are included here
+ *      first and stay untouched; the code under verification (rangeproof_impl.h, main_impl.h, and for the
+ *      borromean unit borromean_impl.h) is compiled afterwards from the real files.
+ *        RP_STUB_READERS  (scalar_set_b32, fe_set_b32_limit: REAL function at the watched buffer position,
+ *                          proved invariant elsewhere; gej_set_ge: exact adapter)
+ *        RP_STUB_XQUAD  RP_STUB_ISSQUARE  RP_STUB_ADD_GE  RP_STUB_ADD_VAR  RP_STUB_SHA  RP_STUB_PED_SMALL
+ *        RP_STUB_PED  RP_STUB_BORRO_VERIFY  RP_STUB_BORRO_SIGN  RP_STUB_SET_GEJ  RP_STUB_ECMULT
+ *        RP_STUB_GET_B32  RP_STUB_SCALAR_ALG  RP_STUB_MEMCPY
+ *
+ * Ghost logs are WATCH style: the harness fixes a selector (g_*_watch call number, g_*_wp buffer
+ * position, g_rp_k array index, g_rp_b byte index) that neither code nor stubs/contracts ever assign;
+ * the log records arguments/result of the selected call.  An assertion about the selected call is a
+ * statement about every call.  */
 #ifndef VERIF_ASSUMED_RANGEPROOF_H
 #define VERIF_ASSUMED_RANGEPROOF_H
-#ifdef RP_ECMULT_WATCH
-# include "pre.h"
-# define SC_EQ(x, y) ((x).d[0] == (y).d[0] && (x).d[1] == (y).d[1] && (x).d[2] == (y).d[2] && (x).d[3] == (y).d[3])
-# define SC_KEEP(x) ((x).d[0] == __CPROVER_old((x).d[0]) && (x).d[1] == __CPROVER_old((x).d[1]) && (x).d[2] == __CPROVER_old((x).d[2]) && (x).d[3] == __CPROVER_old((x).d[3]))
-# define SC_EQ_OLD(x, y) ((x).d[0] == __CPROVER_old((y).d[0]) && (x).d[1] == __CPROVER_old((y).d[1]) && (x).d[2] == __CPROVER_old((y).d[2]) && (x).d[3] == __CPROVER_old((y).d[3]))
-# define FE_EQ(x, y) ((x).n[0] == (y).n[0] && (x).n[1] == (y).n[1] && (x).n[2] == (y).n[2] && (x).n[3] == (y).n[3] && (x).n[4] == (y).n[4])
-# define FE_KEEP(x) ((x).n[0] == __CPROVER_old((x).n[0]) && (x).n[1] == __CPROVER_old((x).n[1]) && (x).n[2] == __CPROVER_old((x).n[2]) && (x).n[3] == __CPROVER_old((x).n[3]) && (x).n[4] == __CPROVER_old((x).n[4]))
-# define FE_EQ_OLD(x, y) ((x).n[0] == __CPROVER_old((y).n[0]) && (x).n[1] == __CPROVER_old((y).n[1]) && (x).n[2] == __CPROVER_old((y).n[2]) && (x).n[3] == __CPROVER_old((y).n[3]) && (x).n[4] == __CPROVER_old((y).n[4]))
-static inline int ge_ok(const secp256k1_ge *g) { return fe_mag(&g->x, 4) && fe_mag(&g->y, 3) && (g->infinity == 0 || g->infinity == 1); }
-static inline int ge_ok1(const secp256k1_ge *g) { return fe_mag(&g->x, 1) && fe_mag(&g->y, 1) && (g->infinity == 0 || g->infinity == 1); }
-static inline int gej_ok(const secp256k1_gej *g) { return fe_mag(&g->x, 4) && fe_mag(&g->y, 4) && fe_mag(&g->z, 1) && (g->infinity == 0 || g->infinity == 1); }
-#else
-# include "assumed.h"
-#endif
+#include "assumed.h"
+#include "hash_log.h"
 
+#define RP_KEEP(g) ((g) == __CPROVER_old(g))
+#define GE_EQ(g, p) (FE_EQ((g).x, (p)->x) && FE_EQ((g).y, (p)->y) && (g).infinity == (p)->infinity)
+#define GE_KEEP(g) (FE_KEEP((g).x) && FE_KEEP((g).y) && RP_KEEP((g).infinity))
 
 /* representation predicates on a LOCAL COPY: the shared ge_ok/gej_ok take the address of sub-objects
  * (&g->x); applied to an array element at a symbolic index (pubs[npub]) that makes CBMC read the whole
@@ -39,16 +46,8 @@ static inline int rp_ge_ok(const secp256k1_ge *g) { secp256k1_ge t = *g; return 
 static inline int rp_ge_ok1(const secp256k1_ge *g) { secp256k1_ge t = *g; return ge_ok1(&t); }
 static inline int rp_scalar_ok(const secp256k1_scalar *a) { secp256k1_scalar t = *a; return scalar_ok(&t); }
 
-#define RP_OLD(e) __CPROVER_old(e)
-#define RP_KEEP(g) ((g) == __CPROVER_old(g))
-#define GE_EQ(g, p) (FE_EQ((g).x, (p)->x) && FE_EQ((g).y, (p)->y) && (g).infinity == (p)->infinity)
-#define GE_EQ_OLD(g, p) (FE_EQ_OLD((g).x, (p)->x) && FE_EQ_OLD((g).y, (p)->y) && (g).infinity == __CPROVER_old((p)->infinity))
-#define GE_KEEP(g) (FE_KEEP((g).x) && FE_KEEP((g).y) && RP_KEEP((g).infinity))
-#define GEJ_EQ(g, p) (FE_EQ((g).x, (p)->x) && FE_EQ((g).y, (p)->y) && FE_EQ((g).z, (p)->z) && (g).infinity == (p)->infinity)
-#define GEJ_KEEP(g) (FE_KEEP((g).x) && FE_KEEP((g).y) && FE_KEEP((g).z) && RP_KEEP((g).infinity))
-
-size_t g_rp_k;      /* ghost array index: never assigned by code or contracts */
-size_t g_rp_b;      /* ghost byte index: never assigned by code or contracts */
+size_t g_rp_k;      /* ghost array index: never assigned by code, contracts or stubs */
+size_t g_rp_b;      /* ghost byte index: never assigned by code, contracts or stubs */
 
 /* sum of the first n ring sizes (specification helper; n <= 32) */
 static inline size_t rp_sum(const size_t *rsizes, size_t n) {
@@ -57,126 +56,14 @@ static inline size_t rp_sum(const size_t *rsizes, size_t n) {
     return t;
 }
 
-/* ---- lift_x oracle: is there a curve point with this x (and square y)?  verdict log ---- */
-#ifdef RP_XQUAD
-struct g_xq_log { int n; int hit; int v; int all /* conjunction of all verdicts so far */; secp256k1_fe x; secp256k1_ge r; } g_xq;
-#define g_xq_n g_xq.n
-#define g_xq_hit g_xq.hit
-#define g_xq_v g_xq.v
-#define g_xq_and g_xq.all /* conjunction of all verdicts so far */
-#define g_xq_x g_xq.x
-#define g_xq_r g_xq.r
-int g_xq_watch;
-static int secp256k1_ge_set_xquad(secp256k1_ge *r, const secp256k1_fe *x)
-__CPROVER_requires(__CPROVER_w_ok(r, sizeof(*r)) && __CPROVER_r_ok(x, sizeof(*x)) && fe_mag(x, 1))
-__CPROVER_assigns(*r, g_xq)
-__CPROVER_ensures(__CPROVER_return_value == 0 || __CPROVER_return_value == 1)
-__CPROVER_ensures(rp_ge_ok1(r) && r->infinity == 0 && FE_EQ_OLD(r->x, *x))          /* r->x = *x is a copy in the code, not algebra */
-__CPROVER_ensures(g_xq_n == __CPROVER_old(g_xq_n) + 1 && g_xq_and == (__CPROVER_old(g_xq_and) && __CPROVER_return_value))
-__CPROVER_ensures(__CPROVER_old(g_xq_n) == g_xq_watch
-    ? (g_xq_hit == 1 && g_xq_v == __CPROVER_return_value && FE_EQ_OLD(g_xq_x, *x) && GE_EQ(g_xq_r, r))
-    : (RP_KEEP(g_xq_hit) && RP_KEEP(g_xq_v) && FE_KEEP(g_xq_x) && GE_KEEP(g_xq_r)))
-;
-#endif
-
-/* ---- quadratic-residue oracle (sign byte of a serialized point) ---- */
-#ifdef RP_ISSQUARE
-struct g_sq_log { int n; int hit; int v; secp256k1_fe a; } g_sq;
-#define g_sq_n g_sq.n
-#define g_sq_hit g_sq.hit
-#define g_sq_v g_sq.v
-#define g_sq_a g_sq.a
-int g_sq_watch;
-static int secp256k1_fe_impl_is_square_var(const secp256k1_fe *a)
-__CPROVER_requires(__CPROVER_r_ok(a, sizeof(*a)))
-__CPROVER_assigns(g_sq)
-__CPROVER_ensures(__CPROVER_return_value == 0 || __CPROVER_return_value == 1)
-__CPROVER_ensures(g_sq_n == __CPROVER_old(g_sq_n) + 1)
-__CPROVER_ensures(__CPROVER_old(g_sq_n) == g_sq_watch
-    ? (g_sq_hit == 1 && g_sq_v == __CPROVER_return_value && FE_EQ(g_sq_a, *a))
-    : (RP_KEEP(g_sq_hit) && RP_KEEP(g_sq_v) && FE_KEEP(g_sq_a)))
-;
-#endif
-
-/* ---- group additions / doublings: arbitrary group element in representation range ---- */
-#ifdef RP_ADD_GE
-struct g_ag_log { int n; int hit; int last_inf /* infinity flag of the most recent result */; secp256k1_gej * rp; const secp256k1_gej * ap; secp256k1_ge b; const secp256k1_ge * bp; secp256k1_gej r; } g_ag;
-#define g_ag_n g_ag.n
-#define g_ag_hit g_ag.hit
-#define g_ag_last_inf g_ag.last_inf /* infinity flag of the most recent result */
-#define g_ag_rp g_ag.rp
-#define g_ag_ap g_ag.ap
-#define g_ag_b g_ag.b
-#define g_ag_bp g_ag.bp
-#define g_ag_r g_ag.r
-int g_ag_watch;
-static void secp256k1_gej_add_ge_var(secp256k1_gej *r, const secp256k1_gej *a, const secp256k1_ge *b, secp256k1_fe *rzr)
-__CPROVER_requires(__CPROVER_w_ok(r, sizeof(*r)) && __CPROVER_r_ok(a, sizeof(*a)) && __CPROVER_r_ok(b, sizeof(*b)) && rzr == NULL)
-__CPROVER_requires(rp_gej_ok(a) && rp_ge_ok(b))
-__CPROVER_assigns(*r, g_ag)
-__CPROVER_ensures(rp_gej_ok(r))
-__CPROVER_ensures(g_ag_n == __CPROVER_old(g_ag_n) + 1 && g_ag_last_inf == r->infinity)
-__CPROVER_ensures(__CPROVER_old(g_ag_n) == g_ag_watch
-    ? (g_ag_hit == 1 && g_ag_rp == r && g_ag_ap == a && g_ag_bp == b && GE_EQ_OLD(g_ag_b, b) && GEJ_EQ(g_ag_r, r))
-    : (RP_KEEP(g_ag_hit) && RP_KEEP(g_ag_rp) && RP_KEEP(g_ag_ap) && RP_KEEP(g_ag_bp) && GE_KEEP(g_ag_b) && GEJ_KEEP(g_ag_r)))
-;
-#endif
-#ifdef RP_ADD_VAR
-static void secp256k1_gej_add_var(secp256k1_gej *r, const secp256k1_gej *a, const secp256k1_gej *b, secp256k1_fe *rzr)
-__CPROVER_requires(__CPROVER_w_ok(r, sizeof(*r)) && __CPROVER_r_ok(a, sizeof(*a)) && __CPROVER_r_ok(b, sizeof(*b)) && rzr == NULL)
-__CPROVER_requires(rp_gej_ok(a) && rp_gej_ok(b))
-__CPROVER_assigns(*r)
-__CPROVER_ensures(rp_gej_ok(r))
-;
-static void secp256k1_gej_double_var(secp256k1_gej *r, const secp256k1_gej *a, secp256k1_fe *rzr)
-__CPROVER_requires(__CPROVER_w_ok(r, sizeof(*r)) && __CPROVER_r_ok(a, sizeof(*a)) && rzr == NULL)
-__CPROVER_requires(rp_gej_ok(a))
-__CPROVER_assigns(*r)
-__CPROVER_ensures(rp_gej_ok(r))
-;
-#endif
-
-/* ---- value*H and blind*G + value*H ---- */
-#ifdef RP_PED_SMALL
-struct g_ps_log { int n; uint64_t gn0; const secp256k1_ge * genp0; secp256k1_gej * rp0; } g_ps;
-#define g_ps_n g_ps.n
-#define g_ps_gn0 g_ps.gn0
-#define g_ps_genp0 g_ps.genp0
-#define g_ps_rp0 g_ps.rp0
-static void secp256k1_pedersen_ecmult_small(secp256k1_gej *r, uint64_t gn, const secp256k1_ge* genp)
-__CPROVER_requires(__CPROVER_w_ok(r, sizeof(*r)) && __CPROVER_r_ok(genp, sizeof(*genp)) && rp_ge_ok(genp))
-__CPROVER_assigns(*r, g_ps)
-__CPROVER_ensures(rp_gej_ok(r))
-__CPROVER_ensures(g_ps_n == __CPROVER_old(g_ps_n) + 1)
-__CPROVER_ensures(__CPROVER_old(g_ps_n) == 0 ? (g_ps_gn0 == gn && g_ps_genp0 == genp && g_ps_rp0 == r) : (RP_KEEP(g_ps_gn0) && RP_KEEP(g_ps_genp0) && RP_KEEP(g_ps_rp0)))
-;
-#endif
-#ifdef RP_PED
-struct g_pd_log { int n; int hit; uint64_t value; secp256k1_scalar sec; const secp256k1_scalar * secp; const secp256k1_ge * genp; secp256k1_gej * rp; int inf; } g_pd;
-#define g_pd_n g_pd.n
-#define g_pd_hit g_pd.hit
-#define g_pd_value g_pd.value
-#define g_pd_sec g_pd.sec
-#define g_pd_secp g_pd.secp
-#define g_pd_genp g_pd.genp
-#define g_pd_rp g_pd.rp
-#define g_pd_inf g_pd.inf
-int g_pd_watch;
-static void secp256k1_pedersen_ecmult(const secp256k1_ecmult_gen_context *ecmult_gen_ctx, secp256k1_gej *rj, const secp256k1_scalar *sec, uint64_t value, const secp256k1_ge* genp)
-__CPROVER_requires(ecmult_gen_ctx != NULL && __CPROVER_w_ok(rj, sizeof(*rj)) && __CPROVER_r_ok(sec, sizeof(*sec)) && __CPROVER_r_ok(genp, sizeof(*genp)) && rp_ge_ok(genp))
-__CPROVER_assigns(*rj, g_pd)
-__CPROVER_ensures(rp_gej_ok(rj))
-__CPROVER_ensures(g_pd_n == __CPROVER_old(g_pd_n) + 1)
-__CPROVER_ensures(__CPROVER_old(g_pd_n) == g_pd_watch
-    ? (g_pd_hit == 1 && g_pd_value == value && SC_EQ_OLD(g_pd_sec, *sec) && g_pd_secp == sec && g_pd_genp == genp && g_pd_rp == rj && g_pd_inf == rj->infinity)
-    : (RP_KEEP(g_pd_hit) && RP_KEEP(g_pd_value) && SC_KEEP(g_pd_sec) && RP_KEEP(g_pd_secp) && RP_KEEP(g_pd_genp) && RP_KEEP(g_pd_rp) && RP_KEEP(g_pd_inf)))
-;
-#endif
+/* ====================================================================================================
+ * (A) DFCC contracts
+ * ==================================================================================================== */
 
 /* ---- pub_expand as an oracle (gates units; the real body is checked in the C07 units):
  *      fills the non-first members of every ring of pubs[128] ---- */
 #ifdef RP_PUB_EXPAND
-struct g_pe_log { int n; int exp; size_t rings; size_t rs_k; secp256k1_gej * pubs; size_t * rsizes; const secp256k1_ge * genp; } g_pe;
+struct g_pe_log { int n; int exp; size_t rings; size_t rs_k; secp256k1_gej *pubs; size_t *rsizes; const secp256k1_ge *genp; } g_pe;
 #define g_pe_n g_pe.n
 #define g_pe_exp g_pe.exp
 #define g_pe_rings g_pe.rings
@@ -197,83 +84,13 @@ __CPROVER_ensures(__CPROVER_old(g_pe_n) == 0
 ;
 #endif
 
-/* ---- Borromean ring-signature verification as an oracle with verdict log ---- */
-#ifdef RP_BORRO_VERIFY
-struct g_bv_log { int n; int v; secp256k1_scalar * ev; const unsigned char * e0; const unsigned char * m; const secp256k1_scalar * s; const secp256k1_gej * pubs; const size_t * rsizes; size_t nrings; size_t mlen; size_t rs_k; secp256k1_scalar s_k; unsigned char m_b; unsigned char e0_b; int pub_inf_k; } g_bv;
-#define g_bv_n g_bv.n
-#define g_bv_v g_bv.v
-#define g_bv_ev g_bv.ev
-#define g_bv_e0 g_bv.e0
-#define g_bv_m g_bv.m
-#define g_bv_s g_bv.s
-#define g_bv_pubs g_bv.pubs
-#define g_bv_rsizes g_bv.rsizes
-#define g_bv_nrings g_bv.nrings
-#define g_bv_mlen g_bv.mlen
-#define g_bv_rs_k g_bv.rs_k
-#define g_bv_s_k g_bv.s_k
-#define g_bv_m_b g_bv.m_b
-#define g_bv_e0_b g_bv.e0_b
-#define g_bv_pub_inf_k g_bv.pub_inf_k
-int secp256k1_borromean_verify(const secp256k1_hash_ctx *hash_ctx, secp256k1_scalar *evalues, const unsigned char *e0,
- const secp256k1_scalar *s, const secp256k1_gej *pubs, const size_t *rsizes, size_t nrings, const unsigned char *m, size_t mlen)
-__CPROVER_requires(hash_ctx != NULL && __CPROVER_r_ok(e0, 32) && nrings >= 1 && nrings <= 32 && mlen == 32 && __CPROVER_r_ok(m, mlen))
-__CPROVER_requires(__CPROVER_r_ok(rsizes, nrings * sizeof(size_t)))
-__CPROVER_requires(g_rp_k < nrings ==> (rsizes[g_rp_k] >= 1 && rsizes[g_rp_k] <= 4))
-__CPROVER_requires(__CPROVER_r_ok(s, rp_sum(rsizes, nrings) * sizeof(secp256k1_scalar)) && __CPROVER_r_ok(pubs, rp_sum(rsizes, nrings) * sizeof(secp256k1_gej)))
-__CPROVER_requires(g_rp_k < rp_sum(rsizes, nrings) ==> rp_scalar_ok(&s[g_rp_k]))
-__CPROVER_requires(evalues == NULL || __CPROVER_w_ok(evalues, rp_sum(rsizes, nrings) * sizeof(secp256k1_scalar)))
-__CPROVER_assigns(evalues != NULL: __CPROVER_object_whole(evalues))
-__CPROVER_assigns(g_bv)
-__CPROVER_ensures(__CPROVER_return_value == 0 || __CPROVER_return_value == 1)
-__CPROVER_ensures(g_bv_n == __CPROVER_old(g_bv_n) + 1)
-__CPROVER_ensures(__CPROVER_old(g_bv_n) == 0
-    ? (g_bv_v == __CPROVER_return_value && g_bv_ev == evalues && g_bv_e0 == e0 && g_bv_m == m && g_bv_s == s && g_bv_pubs == pubs && g_bv_rsizes == rsizes &&
-       g_bv_nrings == nrings && g_bv_mlen == mlen && (g_rp_k < nrings ==> g_bv_rs_k == rsizes[g_rp_k]) &&
-       (g_rp_k < rp_sum(rsizes, nrings) ==> (SC_EQ(g_bv_s_k, s[g_rp_k]) && g_bv_pub_inf_k == pubs[g_rp_k].infinity)) &&
-       (g_rp_b < 32 ==> (g_bv_m_b == m[g_rp_b] && g_bv_e0_b == e0[g_rp_b])))
-    : (RP_KEEP(g_bv_v) && RP_KEEP(g_bv_ev) && RP_KEEP(g_bv_e0) && RP_KEEP(g_bv_m) && RP_KEEP(g_bv_s) && RP_KEEP(g_bv_pubs) && RP_KEEP(g_bv_rsizes) &&
-       RP_KEEP(g_bv_nrings) && RP_KEEP(g_bv_mlen) && RP_KEEP(g_bv_rs_k) && SC_KEEP(g_bv_s_k) && RP_KEEP(g_bv_m_b) && RP_KEEP(g_bv_e0_b) && RP_KEEP(g_bv_pub_inf_k)))
-;
-#endif
-
-/* ---- Borromean signing as an oracle ---- */
-#ifdef RP_BORRO_SIGN
-struct g_bs_log { int n; unsigned char * e0; const unsigned char * m; size_t nrings; size_t mlen; size_t rs_k; size_t si_k; const secp256k1_gej * pubs; secp256k1_scalar * s; unsigned char m_b; } g_bs;
-#define g_bs_n g_bs.n
-#define g_bs_e0 g_bs.e0
-#define g_bs_m g_bs.m
-#define g_bs_nrings g_bs.nrings
-#define g_bs_mlen g_bs.mlen
-#define g_bs_rs_k g_bs.rs_k
-#define g_bs_si_k g_bs.si_k
-#define g_bs_pubs g_bs.pubs
-#define g_bs_s g_bs.s
-#define g_bs_m_b g_bs.m_b
-int secp256k1_borromean_sign(const secp256k1_hash_ctx *hash_ctx, const secp256k1_ecmult_gen_context *ecmult_gen_ctx,
- unsigned char *e0, secp256k1_scalar *s, const secp256k1_gej *pubs, const secp256k1_scalar *k, const secp256k1_scalar *sec,
- const size_t *rsizes, const size_t *secidx, size_t nrings, const unsigned char *m, size_t mlen)
-__CPROVER_requires(hash_ctx != NULL && ecmult_gen_ctx != NULL && __CPROVER_w_ok(e0, 32) && nrings >= 1 && nrings <= 32 && mlen == 32 && __CPROVER_r_ok(m, mlen))
-__CPROVER_requires(__CPROVER_r_ok(rsizes, nrings * sizeof(size_t)) && __CPROVER_r_ok(secidx, nrings * sizeof(size_t)))
-__CPROVER_requires(__CPROVER_r_ok(k, nrings * sizeof(secp256k1_scalar)) && __CPROVER_r_ok(sec, nrings * sizeof(secp256k1_scalar)))
-__CPROVER_requires(g_rp_k < nrings ==> (rsizes[g_rp_k] >= 1 && rsizes[g_rp_k] <= 4 && secidx[g_rp_k] < rsizes[g_rp_k]))
-__CPROVER_requires(__CPROVER_rw_ok(s, rp_sum(rsizes, nrings) * sizeof(secp256k1_scalar)) && __CPROVER_r_ok(pubs, rp_sum(rsizes, nrings) * sizeof(secp256k1_gej)))
-__CPROVER_assigns(__CPROVER_object_upto(e0, 32), __CPROVER_object_whole(s), g_bs)
-__CPROVER_ensures(__CPROVER_return_value == 0 || __CPROVER_return_value == 1)
-__CPROVER_ensures(g_bs_n == __CPROVER_old(g_bs_n) + 1)
-__CPROVER_ensures(__CPROVER_old(g_bs_n) == 0
-    ? (g_bs_e0 == e0 && g_bs_m == m && g_bs_nrings == nrings && g_bs_mlen == mlen && g_bs_pubs == pubs && g_bs_s == s &&
-       (g_rp_k < nrings ==> (g_bs_rs_k == rsizes[g_rp_k] && g_bs_si_k == secidx[g_rp_k])) && (g_rp_b < 32 ==> g_bs_m_b == m[g_rp_b]))
-    : (RP_KEEP(g_bs_e0) && RP_KEEP(g_bs_m) && RP_KEEP(g_bs_nrings) && RP_KEEP(g_bs_mlen) && RP_KEEP(g_bs_pubs) && RP_KEEP(g_bs_s) && RP_KEEP(g_bs_rs_k) && RP_KEEP(g_bs_si_k) && RP_KEEP(g_bs_m_b)))
-;
-#endif
-
 /* ---- the deterministic random stream of a proof (rfc6979 DRBG seeded with nonce||commit||genp||header):
  *      outputs are arbitrary; the SEED ARGUMENTS are captured so that signing and rewinding can be
  *      shown to ask for the same stream.  The caller-side obligations are the capacities of the
  *      fixed arrays it hands over: sec[32], s[128], message[4096] and len <= 10. ---- */
 #ifdef RP_GENRAND
-struct g_gr_log { int n; const unsigned char * nonce; const unsigned char * proof; const secp256k1_ge * commit; const secp256k1_ge * genp; size_t len; size_t rings; size_t rs_k; unsigned char proof_b; unsigned char * msg; secp256k1_scalar * sec; secp256k1_scalar * s; secp256k1_ge commit_v; secp256k1_ge genp_v; unsigned char nonce_b; unsigned char hdr[10]; } g_gr;
+struct g_gr_log { int n; const unsigned char *nonce; const unsigned char *proof; const secp256k1_ge *commit; const secp256k1_ge *genp; size_t len; size_t rings; size_t rs_k;
+    unsigned char *msg; secp256k1_scalar *sec; secp256k1_scalar *s; secp256k1_ge commit_v; secp256k1_ge genp_v; unsigned char nonce_b; unsigned char hdr[10]; } g_gr;
 #define g_gr_n g_gr.n
 #define g_gr_nonce g_gr.nonce
 #define g_gr_proof g_gr.proof
@@ -282,7 +99,6 @@ struct g_gr_log { int n; const unsigned char * nonce; const unsigned char * proo
 #define g_gr_len g_gr.len
 #define g_gr_rings g_gr.rings
 #define g_gr_rs_k g_gr.rs_k
-#define g_gr_proof_b g_gr.proof_b
 #define g_gr_msg g_gr.msg
 #define g_gr_sec g_gr.sec
 #define g_gr_s g_gr.s
@@ -307,25 +123,19 @@ __CPROVER_ensures(g_gr_n == __CPROVER_old(g_gr_n) + 1)
 __CPROVER_ensures(__CPROVER_old(g_gr_n) == 0
     ? (g_gr_nonce == nonce && g_gr_proof == proof && g_gr_commit == commit && g_gr_genp == genp && g_gr_len == len && g_gr_rings == rings && g_gr_msg == message &&
        g_gr_sec == sec && g_gr_s == s && GE_EQ(g_gr_commit_v, commit) && GE_EQ(g_gr_genp_v, genp) &&
-       (g_rp_k < rings ==> g_gr_rs_k == rsizes[g_rp_k]) && (g_rp_b < len ==> g_gr_proof_b == proof[g_rp_b]) && (g_rp_b < 32 ==> g_gr_nonce_b == nonce[g_rp_b]) &&
+       (g_rp_k < rings ==> g_gr_rs_k == rsizes[g_rp_k]) && (g_rp_b < 32 ==> g_gr_nonce_b == nonce[g_rp_b]) &&
        GR_HDR(0) && GR_HDR(1) && GR_HDR(2) && GR_HDR(3) && GR_HDR(4) && GR_HDR(5) && GR_HDR(6) && GR_HDR(7) && GR_HDR(8) && GR_HDR(9))
-    : (GR_HDR_KEEP(0) && GR_HDR_KEEP(1) && GR_HDR_KEEP(2) && GR_HDR_KEEP(3) && GR_HDR_KEEP(4) && GR_HDR_KEEP(5) && GR_HDR_KEEP(6) && GR_HDR_KEEP(7) && GR_HDR_KEEP(8) && GR_HDR_KEEP(9) && RP_KEEP(g_gr_nonce) && RP_KEEP(g_gr_proof) && RP_KEEP(g_gr_commit) && RP_KEEP(g_gr_genp) && RP_KEEP(g_gr_len) && RP_KEEP(g_gr_rings) && RP_KEEP(g_gr_msg) &&
-       RP_KEEP(g_gr_sec) && RP_KEEP(g_gr_s) && GE_KEEP(g_gr_commit_v) && GE_KEEP(g_gr_genp_v) && RP_KEEP(g_gr_rs_k) && RP_KEEP(g_gr_proof_b) && RP_KEEP(g_gr_nonce_b)))
+    : (GR_HDR_KEEP(0) && GR_HDR_KEEP(1) && GR_HDR_KEEP(2) && GR_HDR_KEEP(3) && GR_HDR_KEEP(4) && GR_HDR_KEEP(5) && GR_HDR_KEEP(6) && GR_HDR_KEEP(7) && GR_HDR_KEEP(8) && GR_HDR_KEEP(9) &&
+       RP_KEEP(g_gr_nonce) && RP_KEEP(g_gr_proof) && RP_KEEP(g_gr_commit) && RP_KEEP(g_gr_genp) && RP_KEEP(g_gr_len) && RP_KEEP(g_gr_rings) && RP_KEEP(g_gr_msg) &&
+       RP_KEEP(g_gr_sec) && RP_KEEP(g_gr_s) && GE_KEEP(g_gr_commit_v) && GE_KEEP(g_gr_genp_v) && RP_KEEP(g_gr_rs_k) && RP_KEEP(g_gr_nonce_b)))
 ;
 #endif
 
-
-/* ---- rewind algebra: x = (k - s)/e and k = s + x*e; arbitrary scalar in representation range ---- */
-#ifdef RP_RECOVER
-static void secp256k1_rangeproof_recover_x(secp256k1_scalar *x, const secp256k1_scalar *k, const secp256k1_scalar *e, const secp256k1_scalar *s)
-__CPROVER_requires(__CPROVER_w_ok(x, sizeof(*x)) && __CPROVER_r_ok(k, sizeof(*k)) && __CPROVER_r_ok(e, sizeof(*e)) && __CPROVER_r_ok(s, sizeof(*s)))
-__CPROVER_assigns(*x)
-__CPROVER_ensures(rp_scalar_ok(x))
-;
-static void secp256k1_rangeproof_recover_k(secp256k1_scalar *k, const secp256k1_scalar *x, const secp256k1_scalar *e, const secp256k1_scalar *s)
-__CPROVER_requires(__CPROVER_w_ok(k, sizeof(*k)) && __CPROVER_r_ok(x, sizeof(*x)) && __CPROVER_r_ok(e, sizeof(*e)) && __CPROVER_r_ok(s, sizeof(*s)))
-__CPROVER_assigns(*k)
-__CPROVER_ensures(rp_scalar_ok(k))
+/* ---- x ^= y over 32 bytes (leaf of rewind_inner; keeps 130 x 32 symbolic-offset reads of prep[4096] out of the formula) ---- */
+#ifdef RP_CH32XOR
+static void secp256k1_rangeproof_ch32xor(unsigned char *x, const unsigned char *y)
+__CPROVER_requires(__CPROVER_rw_ok(x, 32) && __CPROVER_r_ok(y, 32))
+__CPROVER_assigns(__CPROVER_object_upto(x, 32))
 ;
 #endif
 
@@ -341,30 +151,13 @@ __CPROVER_assigns(*rng, __CPROVER_object_upto(out, outlen))
 ;
 #endif
 
-/* ---- memcpy contract for units whose code copies a symbolic length into a large object (DESIGN 2.4) ---- */
-#ifdef RP_MEMCPY
-void *memcpy(void *dst, const void *src, size_t n)
-__CPROVER_requires(__CPROVER_r_ok(src, n) && __CPROVER_w_ok(dst, n))
-__CPROVER_assigns(__CPROVER_object_upto(dst, n))
-__CPROVER_ensures(__CPROVER_return_value == dst)
-__CPROVER_ensures(g_rp_b < n ==> ((unsigned char*)dst)[g_rp_b] == ((const unsigned char*)src)[g_rp_b])
-;
-#endif
-
-
-/* ================= PROVED leaf contracts (not assumptions) =================
- * Byte-string readers/writers of the scalar/field layer, stated so that a caller that invokes them
- * a hundred times at symbolic offsets of one big buffer stays tractable: the functional relation
- * bytes <-> value is stated for ONE watched buffer position (a ghost pointer the harness fixes and
- * nothing assigns), which is sound for "for all positions" because the watch is arbitrary.
- * The functional part is enforced against the real bodies in units C10.leaf_* (RP_LEAF_ENFORCE drops
- * the ghost-log clauses, which only constrain ghost variables). */
+/* ---- PROVED leaf contracts (units C10.leaf_*): frame, representation invariant of the outputs, verdict in
+ *      {0,1} and the functional relation bytes <-> value, for every input ---- */
 #ifdef RP_LEAF_ENFORCE
-/* enforced in C10.leaf_*: frame, representation invariant of the outputs, verdict in {0,1} - for every input */
 static void secp256k1_scalar_set_b32(secp256k1_scalar *r, const unsigned char *b32, int *overflow)
 __CPROVER_requires(__CPROVER_w_ok(r, sizeof(*r)) && __CPROVER_r_ok(b32, 32) && (overflow == NULL || __CPROVER_w_ok(overflow, sizeof(int))))
 __CPROVER_assigns(*r) __CPROVER_assigns(overflow != NULL: *overflow)
-__CPROVER_ensures(rp_scalar_ok(r))
+__CPROVER_ensures(scalar_ok(r))
 __CPROVER_ensures(overflow != NULL ==> (*overflow == 0 || *overflow == 1))
 __CPROVER_ensures(sval(r) == (be256(b32) >= N_() ? be256(b32) - N_() : be256(b32)) && (overflow != NULL ==> *overflow == (be256(b32) >= N_())))
 ;
@@ -375,62 +168,71 @@ __CPROVER_ensures((__CPROVER_return_value == 0 || __CPROVER_return_value == 1) &
 __CPROVER_ensures(__CPROVER_return_value == (be256(a) < P_()) && fval(r) == be256(a))
 ;
 #endif
-#ifdef RP_STUB_READERS
-/* Call-site substitution of the two byte readers by stubs (preprocessor rename of the USES that follow
- * this header; the definitions in scalar_impl.h / field_impl.h are included first and stay real):
- *   - at the watched buffer position the stub RUNS THE REAL FUNCTION on the watched bytes;
- *   - elsewhere it returns an arbitrary value satisfying the invariant proved in C10.leaf_*
- *     (scalar < n / limbs in range, verdict in {0,1}) and checks that 32 bytes are readable.
- * Reason: a DFCC contract replacement costs ~1 s of symbolic execution per call site and the real bodies
- * read 32 bytes per call at symbolic offsets of one 5 KB buffer (quadratic array constraints); verify_impl
- * makes up to 31 + 128 such calls. */
+
+/* ====================================================================================================
+ * (B) call-site stubs
+ * ==================================================================================================== */
+#if defined(RP_STUB_READERS) || defined(RP_STUB_XQUAD) || defined(RP_STUB_ISSQUARE) || defined(RP_STUB_ADD_GE) || defined(RP_STUB_ADD_VAR) || \
+    defined(RP_STUB_SHA) || defined(RP_STUB_PED_SMALL) || defined(RP_STUB_PED) || defined(RP_STUB_BORRO_VERIFY) || defined(RP_STUB_BORRO_SIGN) || \
+    defined(RP_STUB_SET_GEJ) || defined(RP_STUB_ECMULT) || defined(RP_STUB_GET_B32) || defined(RP_STUB_SCALAR_ALG) || defined(RP_STUB_MEMCPY)
+/* the real definitions first */
 #include "src/field_impl.h"
 #include "src/scalar_impl.h"
 #include "src/group_impl.h"
-uint64_t nondet_rp_u64(void); int nondet_rp_int(void);
-/* Call-site ADAPTER (no abstraction): the real secp256k1_gej_set_ge runs on a local temporary which is then
- * struct-assigned to the destination.  Same result; avoids writes through a pointer to a sub-object of
- * pubs[npub] at a symbolic index (CBMC turns those into byte_updates of the whole 16 KB array). */
-static void rp_adapt_gej_set_ge(secp256k1_gej *r, const secp256k1_ge *a) {
-    secp256k1_gej t;
-    secp256k1_gej_set_ge(&t, a);
-    *r = t;
-}
-const unsigned char *g_sb_wp;            /* watch pointer: never assigned by code or stubs */
+#include "src/hash_impl.h"
+#if defined(RP_STUB_ECMULT)
+# include "src/ecmult_impl.h"
+#endif
+#if defined(RP_STUB_PED_SMALL) || defined(RP_STUB_PED)
+# include "src/modules/generator/pedersen_impl.h"
+#endif
+#if defined(RP_STUB_BORRO_VERIFY) || defined(RP_STUB_BORRO_SIGN)
+# include "src/modules/rangeproof/borromean_impl.h"
+#endif
+uint64_t nondet_rp_u64(void); int nondet_rp_int(void); secp256k1_ge nondet_rp_ge(void); secp256k1_gej nondet_rp_gej(void); secp256k1_scalar nondet_rp_scalar(void);
+#define RP_PRE(c, msg) __CPROVER_assert(c, "precondition at call site: " msg)
+
+#ifdef RP_STUB_READERS
+/* scalar_set_b32 / fe_set_b32_limit: at the watched buffer position the stub returns what THE REAL FUNCTION
+ * computes on the watched bytes; elsewhere it returns an arbitrary value satisfying the invariant proved in C10.leaf_*
+ * (scalar < n / limbs in range, verdict in {0,1}) and checks that 32 bytes are readable.  (The real bodies
+ * read 32 bytes per call at symbolic offsets of one 5 KB buffer: quadratic array constraints.) */
+const unsigned char *g_sb_wp;            /* watch pointer: set once by rp_watch_scalar before the call under test */
 struct g_sb_log { int n, hit, wovf, any /* disjunction of all overflow verdicts so far */; secp256k1_scalar wr; } g_sb;
 #define g_sb_n g_sb.n
 #define g_sb_hit g_sb.hit
 #define g_sb_wovf g_sb.wovf
 #define g_sb_or g_sb.any
 #define g_sb_wr g_sb.wr
+/* the REAL secp256k1_scalar_set_b32 is run ONCE on the watched bytes (they are const for the call under test);
+ * every call site that reads the watched position gets that result */
+static void rp_watch_scalar(const unsigned char *p) { g_sb_wp = p; if (p != NULL) secp256k1_scalar_set_b32(&g_sb.wr, p, &g_sb.wovf); }
 static void rp_stub_scalar_set_b32(secp256k1_scalar *r, const unsigned char *b32, int *overflow) {
     int ov;
-    __CPROVER_assert(__CPROVER_r_ok(b32, 32), "scalar_set_b32 call site: 32 readable bytes");
+    RP_PRE(__CPROVER_r_ok(b32, 32), "scalar_set_b32 reads 32 bytes");
     if (b32 == g_sb_wp) {
-        secp256k1_scalar_set_b32(r, g_sb_wp, &ov);
-        g_sb.hit = 1; g_sb.wovf = ov; g_sb.wr = *r;
+        *r = g_sb.wr; ov = g_sb.wovf; g_sb.hit = 1;
     } else {
-        secp256k1_scalar t;
-        t.d[0] = nondet_rp_u64(); t.d[1] = nondet_rp_u64(); t.d[2] = nondet_rp_u64(); t.d[3] = nondet_rp_u64(); ov = nondet_rp_int();
-        __CPROVER_assume(rp_scalar_ok(&t) && (ov == 0 || ov == 1));      /* invariant proved in C10.leaf_scalar_set_b32 */
+        secp256k1_scalar t = nondet_rp_scalar(); ov = nondet_rp_int();
+        __CPROVER_assume(scalar_ok(&t) && (ov == 0 || ov == 1));      /* invariant proved in C10.leaf_scalar_set_b32 */
         *r = t;
     }
     if (overflow != NULL) { *overflow = ov; g_sb.any = g_sb.any || ov; }
     g_sb.n++;
 }
-const unsigned char *g_fl_wp;            /* watch pointer: never assigned by code or stubs */
+const unsigned char *g_fl_wp;            /* watch pointer: set once by rp_watch_fe before the call under test */
 struct g_fl_log { int n, hit, wv, all /* conjunction of all verdicts so far */; secp256k1_fe wr; } g_fl;
 #define g_fl_n g_fl.n
 #define g_fl_hit g_fl.hit
 #define g_fl_wv g_fl.wv
 #define g_fl_and g_fl.all
 #define g_fl_wr g_fl.wr
+static void rp_watch_fe(const unsigned char *p) { g_fl_wp = p; if (p != NULL) g_fl.wv = secp256k1_fe_impl_set_b32_limit(&g_fl.wr, p); }
 static int rp_stub_fe_set_b32_limit(secp256k1_fe *r, const unsigned char *a) {
     int ret;
-    __CPROVER_assert(__CPROVER_r_ok(a, 32), "fe_set_b32_limit call site: 32 readable bytes");
+    RP_PRE(__CPROVER_r_ok(a, 32), "fe_set_b32_limit reads 32 bytes");
     if (a == g_fl_wp) {
-        ret = secp256k1_fe_impl_set_b32_limit(r, g_fl_wp);
-        g_fl.hit = 1; g_fl.wv = ret; g_fl.wr = *r;
+        *r = g_fl.wr; ret = g_fl.wv; g_fl.hit = 1;
     } else {
         secp256k1_fe t;
         t.n[0] = nondet_rp_u64(); t.n[1] = nondet_rp_u64(); t.n[2] = nondet_rp_u64(); t.n[3] = nondet_rp_u64(); t.n[4] = nondet_rp_u64(); ret = nondet_rp_int();
@@ -441,69 +243,352 @@ static int rp_stub_fe_set_b32_limit(secp256k1_fe *r, const unsigned char *a) {
     g_fl.n++;
     return ret;
 }
-#define secp256k1_scalar_set_b32 rp_stub_scalar_set_b32
-#define secp256k1_fe_impl_set_b32_limit rp_stub_fe_set_b32_limit
-#define secp256k1_gej_set_ge rp_adapt_gej_set_ge
-#endif
-#ifdef RP_GET_B32
-/* replacement form used by the signing units: the frame is over-approximated to the whole destination
- * object (one fresh array instead of 32 symbolic-offset updates); w_ok(bin,32) is the bounds obligation */
-struct g_gb_log { int n; unsigned char * first; unsigned char * last; } g_gb;
-#define g_gb_n g_gb.n
-#define g_gb_first g_gb.first
-#define g_gb_last g_gb.last
-static void secp256k1_scalar_get_b32(unsigned char *bin, const secp256k1_scalar* a)
-__CPROVER_requires(__CPROVER_w_ok(bin, 32) && __CPROVER_r_ok(a, sizeof(*a)))
-__CPROVER_assigns(__CPROVER_object_whole(bin), g_gb)
-__CPROVER_ensures(g_gb_n == __CPROVER_old(g_gb_n) + 1 && g_gb_last == bin && g_gb_first == (__CPROVER_old(g_gb_n) == 0 ? bin : __CPROVER_old(g_gb_first)))
-;
-#endif
-#ifdef RP_CH32XOR
-static void secp256k1_rangeproof_ch32xor(unsigned char *x, const unsigned char *y)
-__CPROVER_requires(__CPROVER_rw_ok(x, 32) && __CPROVER_r_ok(y, 32))
-__CPROVER_assigns(__CPROVER_object_upto(x, 32))
-;
-#endif
-#ifdef RP_MEMCPY_WHOLE
-/* memcpy with the frame over-approximated to the whole destination object (DESIGN 2.4) */
-void *memcpy(void *dst, const void *src, size_t n)
-__CPROVER_requires(__CPROVER_r_ok(src, n) && __CPROVER_w_ok(dst, n))
-__CPROVER_assigns(__CPROVER_object_whole(dst))
-__CPROVER_ensures(__CPROVER_return_value == dst)
-;
+/* exact ADAPTER (no abstraction): the real secp256k1_gej_set_ge runs on a local temporary which is then
+ * struct-assigned to the destination; avoids writes through a pointer to a sub-object of pubs[npub] at a
+ * symbolic index (CBMC turns those into byte_updates of the whole 16 KB array). */
+static void rp_adapt_gej_set_ge(secp256k1_gej *r, const secp256k1_ge *a) {
+    secp256k1_gej t;
+    secp256k1_gej_set_ge(&t, a);
+    *r = t;
+}
 #endif
 
-/* ---- watch-style contracts for the two curve callees of secp256k1_borromean_verify ---- */
-#ifdef RP_ECMULT_WATCH
-struct g_em_log { int n; int hit; int rinf; const secp256k1_gej * ap; const secp256k1_scalar * ngp; secp256k1_scalar na; } g_em;
+#ifdef RP_STUB_XQUAD     /* lift_x oracle: is there a curve point with this x (and square y)?  verdict log */
+int g_xq_watch;
+struct g_xq_log { int n, hit, v, all /* conjunction of all verdicts so far */; secp256k1_fe x; secp256k1_ge r; } g_xq;
+#define g_xq_n g_xq.n
+#define g_xq_hit g_xq.hit
+#define g_xq_v g_xq.v
+#define g_xq_and g_xq.all
+#define g_xq_x g_xq.x
+#define g_xq_r g_xq.r
+static int rp_stub_ge_set_xquad(secp256k1_ge *r, const secp256k1_fe *x) {
+    secp256k1_ge t = nondet_rp_ge(); int ret = nondet_rp_int();
+    RP_PRE(fe_mag(x, 1), "ge_set_xquad gets a magnitude-1 x");
+    __CPROVER_assume(ge_ok1(&t) && (ret == 0 || ret == 1));
+    t.x = *x; t.infinity = 0;                     /* r->x = *x is a copy in the code, not algebra */
+    if (g_xq.n == g_xq_watch) { g_xq.hit = 1; g_xq.v = ret; g_xq.x = *x; g_xq.r = t; }
+    g_xq.all = g_xq.all && ret; g_xq.n++;
+    *r = t;
+    return ret;
+}
+#endif
+
+#ifdef RP_STUB_ISSQUARE  /* quadratic-residue oracle (sign byte of a serialized point) */
+int g_sq_watch;
+struct g_sq_log { int n, hit, v; secp256k1_fe a; } g_sq;
+#define g_sq_n g_sq.n
+#define g_sq_hit g_sq.hit
+#define g_sq_v g_sq.v
+#define g_sq_a g_sq.a
+static int rp_stub_fe_is_square_var(const secp256k1_fe *a) {
+    int ret = nondet_rp_int();
+    __CPROVER_assume(ret == 0 || ret == 1);
+    if (g_sq.n == g_sq_watch) { g_sq.hit = 1; g_sq.v = ret; g_sq.a = *a; }
+    g_sq.n++;
+    return ret;
+}
+#endif
+
+#ifdef RP_STUB_ADD_GE    /* r = a + b (b affine): arbitrary group element in representation range */
+int g_ag_watch;
+struct g_ag_log { int n, hit, last_inf /* infinity flag of the most recent result */; secp256k1_gej *rp; const secp256k1_gej *ap; const secp256k1_ge *bp; secp256k1_ge b; secp256k1_gej r; } g_ag;
+#define g_ag_n g_ag.n
+#define g_ag_hit g_ag.hit
+#define g_ag_last_inf g_ag.last_inf
+#define g_ag_rp g_ag.rp
+#define g_ag_ap g_ag.ap
+#define g_ag_bp g_ag.bp
+#define g_ag_b g_ag.b
+#define g_ag_r g_ag.r
+static void rp_stub_gej_add_ge_var(secp256k1_gej *r, const secp256k1_gej *a, const secp256k1_ge *b, secp256k1_fe *rzr) {
+    secp256k1_gej t = nondet_rp_gej();
+    RP_PRE(rzr == NULL && rp_gej_ok(a) && rp_ge_ok(b), "gej_add_ge_var operands in representation range");
+    __CPROVER_assume(gej_ok(&t));
+    if (g_ag.n == g_ag_watch) { g_ag.hit = 1; g_ag.rp = r; g_ag.ap = a; g_ag.bp = b; g_ag.b = *b; g_ag.r = t; }
+    g_ag.last_inf = t.infinity; g_ag.n++;
+    *r = t;
+}
+#endif
+
+#ifdef RP_STUB_ADD_VAR   /* Jacobian add / double inside pub_expand */
+int g_av_n;
+static void rp_stub_gej_add_var(secp256k1_gej *r, const secp256k1_gej *a, const secp256k1_gej *b, secp256k1_fe *rzr) {
+    secp256k1_gej t = nondet_rp_gej();
+    RP_PRE(rzr == NULL && rp_gej_ok(a) && rp_gej_ok(b), "gej_add_var operands in representation range");
+    __CPROVER_assume(gej_ok(&t));
+    g_av_n++;
+    *r = t;
+}
+static void rp_stub_gej_double_var(secp256k1_gej *r, const secp256k1_gej *a, secp256k1_fe *rzr) {
+    secp256k1_gej t = nondet_rp_gej();
+    RP_PRE(rzr == NULL && rp_gej_ok(a), "gej_double_var operand in representation range");
+    __CPROVER_assume(gej_ok(&t));
+    *r = t;
+}
+#endif
+
+#ifdef RP_STUB_SHA       /* transliteration of the stream contracts of hash_log.h (proved in the C05 hash units) */
+static void rp_stub_sha256_write(const secp256k1_hash_ctx *hash_ctx, secp256k1_sha256 *hash, const unsigned char *data, size_t len) {
+    uint64_t ob = hash->bytes; secp256k1_sha256 t;
+    RP_PRE(hash_ctx != NULL && (len == 0 || __CPROVER_r_ok(data, len)) && ob + len >= len, "sha256_write reads len bytes");
+    if (g_h_fresh && g_fin_n == g_we) { g_w_started = 1; g_w_s0 = hash->s[0]; g_w_s7 = hash->s[7]; g_w_b0 = ob; }
+    if (g_fin_n == g_we && ob <= g_wpos && g_wpos < ob + len) { g_w_hit = 1; g_w_byte = data[g_wpos - ob]; }
+    g_h_fresh = 0;
+    t.s[0] = (uint32_t)nondet_rp_u64(); t.s[1] = (uint32_t)nondet_rp_u64(); t.s[2] = (uint32_t)nondet_rp_u64(); t.s[3] = (uint32_t)nondet_rp_u64();
+    t.s[4] = (uint32_t)nondet_rp_u64(); t.s[5] = (uint32_t)nondet_rp_u64(); t.s[6] = (uint32_t)nondet_rp_u64(); t.s[7] = (uint32_t)nondet_rp_u64();
+    hash->s[0] = t.s[0]; hash->s[1] = t.s[1]; hash->s[2] = t.s[2]; hash->s[3] = t.s[3]; hash->s[4] = t.s[4]; hash->s[5] = t.s[5]; hash->s[6] = t.s[6]; hash->s[7] = t.s[7];
+    hash->bytes = ob + len;          /* buf content: left as is (never read by the code under verification) */
+}
+unsigned char nondet_rp_uchar(void);
+static void rp_stub_sha256_finalize(const secp256k1_hash_ctx *hash_ctx, secp256k1_sha256 *hash, unsigned char *out32) {
+    int i;
+    RP_PRE(hash_ctx != NULL && __CPROVER_w_ok(out32, 32), "sha256_finalize writes 32 bytes");
+    for (i = 0; i < 32; i++) out32[i] = nondet_rp_uchar();
+    if (g_fin_n == g_we) { g_w_fin = 1; g_w_end = hash->bytes; for (i = 0; i < 32; i++) g_w_dig[i] = out32[i]; }
+    g_fin_n++; g_h_fresh = 1;
+    hash->bytes = nondet_rp_u64();
+}
+#endif
+
+#ifdef RP_STUB_PED_SMALL /* value * H */
+struct g_ps_log { int n; uint64_t gn0; const secp256k1_ge *genp0; secp256k1_gej *rp0; } g_ps;
+#define g_ps_n g_ps.n
+#define g_ps_gn0 g_ps.gn0
+#define g_ps_genp0 g_ps.genp0
+#define g_ps_rp0 g_ps.rp0
+static void rp_stub_pedersen_ecmult_small(secp256k1_gej *r, uint64_t gn, const secp256k1_ge* genp) {
+    secp256k1_gej t = nondet_rp_gej();
+    RP_PRE(rp_ge_ok(genp), "pedersen_ecmult_small generator in representation range");
+    __CPROVER_assume(gej_ok(&t));
+    if (g_ps.n == 0) { g_ps.gn0 = gn; g_ps.genp0 = genp; g_ps.rp0 = r; }
+    g_ps.n++;
+    *r = t;
+}
+#endif
+
+#ifdef RP_STUB_PED       /* blind * G + value * H */
+int g_pd_watch;
+struct g_pd_log { int n, hit, inf; uint64_t value; secp256k1_scalar sec; const secp256k1_scalar *secp; const secp256k1_ge *genp; secp256k1_gej *rp; } g_pd;
+#define g_pd_n g_pd.n
+#define g_pd_hit g_pd.hit
+#define g_pd_inf g_pd.inf
+#define g_pd_value g_pd.value
+#define g_pd_sec g_pd.sec
+#define g_pd_secp g_pd.secp
+#define g_pd_genp g_pd.genp
+#define g_pd_rp g_pd.rp
+static void rp_stub_pedersen_ecmult(const secp256k1_ecmult_gen_context *ecmult_gen_ctx, secp256k1_gej *rj, const secp256k1_scalar *sec, uint64_t value, const secp256k1_ge* genp) {
+    secp256k1_gej t = nondet_rp_gej();
+    RP_PRE(ecmult_gen_ctx != NULL && rp_ge_ok(genp), "pedersen_ecmult context and generator");
+    __CPROVER_assume(gej_ok(&t));
+    if (g_pd.n == g_pd_watch) { g_pd.hit = 1; g_pd.inf = t.infinity; g_pd.value = value; g_pd.sec = *sec; g_pd.secp = sec; g_pd.genp = genp; g_pd.rp = rj; }
+    g_pd.n++;
+    *rj = t;
+}
+#endif
+
+#ifdef RP_STUB_BORRO_VERIFY  /* Borromean ring-signature verification: verdict oracle with argument log (first call) */
+struct g_bv_log { int n, v, pub_inf_k; secp256k1_scalar *ev; const unsigned char *e0, *m; const secp256k1_scalar *s; const secp256k1_gej *pubs; const size_t *rsizes;
+    size_t nrings, mlen, rs_k, npub; secp256k1_scalar s_k; unsigned char m_b, e0_b; } g_bv;
+#define g_bv_n g_bv.n
+#define g_bv_v g_bv.v
+#define g_bv_ev g_bv.ev
+#define g_bv_e0 g_bv.e0
+#define g_bv_m g_bv.m
+#define g_bv_s g_bv.s
+#define g_bv_pubs g_bv.pubs
+#define g_bv_rsizes g_bv.rsizes
+#define g_bv_nrings g_bv.nrings
+#define g_bv_mlen g_bv.mlen
+#define g_bv_rs_k g_bv.rs_k
+#define g_bv_npub g_bv.npub
+#define g_bv_s_k g_bv.s_k
+#define g_bv_m_b g_bv.m_b
+#define g_bv_e0_b g_bv.e0_b
+#define g_bv_pub_inf_k g_bv.pub_inf_k
+static int rp_stub_borromean_verify(const secp256k1_hash_ctx *hash_ctx, secp256k1_scalar *evalues, const unsigned char *e0,
+ const secp256k1_scalar *s, const secp256k1_gej *pubs, const size_t *rsizes, size_t nrings, const unsigned char *m, size_t mlen) {
+    int ret = nondet_rp_int(); size_t np;
+    __CPROVER_assume(ret == 0 || ret == 1);
+    RP_PRE(hash_ctx != NULL && __CPROVER_r_ok(e0, 32) && nrings >= 1 && nrings <= 32 && mlen == 32 && __CPROVER_r_ok(m, mlen), "borromean_verify: e0, message, ring count");
+    RP_PRE(__CPROVER_r_ok(rsizes, nrings * sizeof(size_t)), "borromean_verify: nrings ring sizes readable");
+    RP_PRE(g_rp_k >= nrings || (rsizes[g_rp_k] >= 1 && rsizes[g_rp_k] <= 4), "borromean_verify: every ring size in 1..4");
+    np = rp_sum(rsizes, nrings);
+    RP_PRE(__CPROVER_r_ok(s, np * sizeof(secp256k1_scalar)) && __CPROVER_r_ok(pubs, np * sizeof(secp256k1_gej)), "borromean_verify: sum(rsizes) scalars and keys readable");
+    RP_PRE(g_rp_k >= np || rp_scalar_ok(&s[g_rp_k]), "borromean_verify: every scalar < n");
+    RP_PRE(evalues == NULL || __CPROVER_w_ok(evalues, np * sizeof(secp256k1_scalar)), "borromean_verify: sum(rsizes) challenges writable");
+    if (g_bv.n == 0) {
+        g_bv.v = ret; g_bv.ev = evalues; g_bv.e0 = e0; g_bv.m = m; g_bv.s = s; g_bv.pubs = pubs; g_bv.rsizes = rsizes; g_bv.nrings = nrings; g_bv.mlen = mlen; g_bv.npub = np;
+        if (g_rp_k < nrings) g_bv.rs_k = rsizes[g_rp_k];
+        if (g_rp_k < np) { g_bv.s_k = s[g_rp_k]; g_bv.pub_inf_k = pubs[g_rp_k].infinity; }
+        if (g_rp_b < 32) { g_bv.m_b = m[g_rp_b]; g_bv.e0_b = e0[g_rp_b]; }
+    }
+    g_bv.n++;
+    if (evalues != NULL) __CPROVER_havoc_object(evalues);
+    return ret;
+}
+#endif
+
+#ifdef RP_STUB_BORRO_SIGN    /* Borromean signing: writes e0[32] and s[], verdict oracle */
+struct g_bs_log { int n; unsigned char *e0; const unsigned char *m; size_t nrings, mlen, rs_k, si_k, npub; const secp256k1_gej *pubs; secp256k1_scalar *s; unsigned char m_b; } g_bs;
+#define g_bs_n g_bs.n
+#define g_bs_e0 g_bs.e0
+#define g_bs_m g_bs.m
+#define g_bs_nrings g_bs.nrings
+#define g_bs_mlen g_bs.mlen
+#define g_bs_rs_k g_bs.rs_k
+#define g_bs_si_k g_bs.si_k
+#define g_bs_npub g_bs.npub
+#define g_bs_pubs g_bs.pubs
+#define g_bs_s g_bs.s
+#define g_bs_m_b g_bs.m_b
+static int rp_stub_borromean_sign(const secp256k1_hash_ctx *hash_ctx, const secp256k1_ecmult_gen_context *ecmult_gen_ctx,
+ unsigned char *e0, secp256k1_scalar *s, const secp256k1_gej *pubs, const secp256k1_scalar *k, const secp256k1_scalar *sec,
+ const size_t *rsizes, const size_t *secidx, size_t nrings, const unsigned char *m, size_t mlen) {
+    int ret = nondet_rp_int(); size_t np;
+    __CPROVER_assume(ret == 0 || ret == 1);
+    RP_PRE(hash_ctx != NULL && ecmult_gen_ctx != NULL && __CPROVER_w_ok(e0, 32) && nrings >= 1 && nrings <= 32 && mlen == 32 && __CPROVER_r_ok(m, mlen), "borromean_sign: e0, message, ring count");
+    RP_PRE(__CPROVER_r_ok(rsizes, nrings * sizeof(size_t)) && __CPROVER_r_ok(secidx, nrings * sizeof(size_t)), "borromean_sign: ring sizes and secret indices readable");
+    RP_PRE(__CPROVER_r_ok(k, nrings * sizeof(secp256k1_scalar)) && __CPROVER_r_ok(sec, nrings * sizeof(secp256k1_scalar)), "borromean_sign: nrings nonces and secrets readable");
+    RP_PRE(g_rp_k >= nrings || (rsizes[g_rp_k] >= 1 && rsizes[g_rp_k] <= 4 && secidx[g_rp_k] < rsizes[g_rp_k]), "borromean_sign: ring sizes in 1..4, secret index inside its ring");
+    np = rp_sum(rsizes, nrings);
+    RP_PRE(__CPROVER_rw_ok(s, np * sizeof(secp256k1_scalar)) && __CPROVER_r_ok(pubs, np * sizeof(secp256k1_gej)), "borromean_sign: sum(rsizes) scalars writable and keys readable");
+    if (g_bs.n == 0) {
+        g_bs.e0 = e0; g_bs.m = m; g_bs.nrings = nrings; g_bs.mlen = mlen; g_bs.pubs = pubs; g_bs.s = s; g_bs.npub = np;
+        if (g_rp_k < nrings) { g_bs.rs_k = rsizes[g_rp_k]; g_bs.si_k = secidx[g_rp_k]; }
+        if (g_rp_b < 32) g_bs.m_b = m[g_rp_b];
+    }
+    g_bs.n++;
+    __CPROVER_havoc_object(e0);        /* frame over-approximated to the whole object holding e0 (the proof buffer) */
+    __CPROVER_havoc_object(s);
+    return ret;
+}
+#endif
+
+#ifdef RP_STUB_SET_GEJ   /* Jacobian -> affine */
+int g_sg_watch;
+struct g_sgw_log { int n, hit; secp256k1_ge r; } g_sgw;
+#define g_sg_n g_sgw.n
+#define g_sg_hit g_sgw.hit
+#define g_sg_r g_sgw.r
+static void rp_stub_ge_set_gej_var(secp256k1_ge *r, secp256k1_gej *a) {
+    secp256k1_ge t = nondet_rp_ge(); secp256k1_gej u = nondet_rp_gej(); int inf = a->infinity;
+    RP_PRE(rp_gej_ok(a), "ge_set_gej_var operand in representation range");
+    __CPROVER_assume(ge_ok1(&t) && gej_ok(&u));
+    t.infinity = inf; u.infinity = inf;
+    if (g_sgw.n == g_sg_watch) { g_sgw.hit = 1; g_sgw.r = t; }
+    g_sgw.n++;
+    *a = u;                              /* the input may be rescaled */
+    *r = t;
+}
+#endif
+
+#ifdef RP_STUB_ECMULT    /* na*A + ng*G */
+int g_em_watch;
+struct g_em_log { int n, hit, rinf; const secp256k1_gej *ap; const secp256k1_scalar *ngp; secp256k1_scalar na; } g_em;
 #define g_em_n g_em.n
 #define g_em_hit g_em.hit
 #define g_em_rinf g_em.rinf
 #define g_em_ap g_em.ap
 #define g_em_ngp g_em.ngp
 #define g_em_na g_em.na
-int g_em_watch;
-static void secp256k1_ecmult(secp256k1_gej *r, const secp256k1_gej *a, const secp256k1_scalar *na, const secp256k1_scalar *ng)
-__CPROVER_requires(__CPROVER_w_ok(r, sizeof(*r)) && __CPROVER_r_ok(a, sizeof(*a)) && rp_gej_ok(a))
-__CPROVER_requires(__CPROVER_r_ok(na, sizeof(*na)) && rp_scalar_ok(na) && __CPROVER_r_ok(ng, sizeof(*ng)) && rp_scalar_ok(ng))
-__CPROVER_assigns(*r, g_em)
-__CPROVER_ensures(rp_gej_ok(r))
-__CPROVER_ensures(g_em_n == __CPROVER_old(g_em_n) + 1)
-__CPROVER_ensures(__CPROVER_old(g_em_n) == g_em_watch
-    ? (g_em_hit == 1 && g_em_rinf == r->infinity && g_em_ap == a && g_em_ngp == ng && SC_EQ_OLD(g_em_na, *na))
-    : (RP_KEEP(g_em_hit) && RP_KEEP(g_em_rinf) && RP_KEEP(g_em_ap) && RP_KEEP(g_em_ngp) && SC_KEEP(g_em_na)))
-;
-struct g_sgw_log { int n; int hit; secp256k1_ge r; } g_sgw;
-#define g_sg_n g_sgw.n
-#define g_sg_hit g_sgw.hit
-#define g_sg_r g_sgw.r
-int g_sg_watch;
-static void secp256k1_ge_set_gej_var(secp256k1_ge *r, secp256k1_gej *a)
-__CPROVER_requires(__CPROVER_w_ok(r, sizeof(*r)) && __CPROVER_rw_ok(a, sizeof(*a)) && rp_gej_ok(a))
-__CPROVER_assigns(*r, *a, g_sgw)
-__CPROVER_ensures(rp_ge_ok1(r) && rp_gej_ok(a) && r->infinity == __CPROVER_old(a->infinity))
-__CPROVER_ensures(g_sg_n == __CPROVER_old(g_sg_n) + 1)
-__CPROVER_ensures(__CPROVER_old(g_sg_n) == g_sg_watch ? (g_sg_hit == 1 && GE_EQ(g_sg_r, r)) : (RP_KEEP(g_sg_hit) && GE_KEEP(g_sg_r)))
-;
+static void rp_stub_ecmult(secp256k1_gej *r, const secp256k1_gej *a, const secp256k1_scalar *na, const secp256k1_scalar *ng) {
+    secp256k1_gej t = nondet_rp_gej();
+    RP_PRE(rp_gej_ok(a) && na != NULL && ng != NULL && rp_scalar_ok(na) && rp_scalar_ok(ng), "ecmult operands in representation range");
+    __CPROVER_assume(gej_ok(&t));
+    if (g_em.n == g_em_watch) { g_em.hit = 1; g_em.rinf = t.infinity; g_em.ap = a; g_em.ngp = ng; g_em.na = *na; }
+    g_em.n++;
+    *r = t;
+}
 #endif
+
+#ifdef RP_STUB_GET_B32   /* scalar -> 32 bytes, frame over-approximated to the whole destination object (signing units:
+                            one fresh array instead of 32 symbolic-offset updates per call); w_ok(bin,32) is the bounds obligation */
+struct g_gb_log { int n; unsigned char *first, *last; } g_gb;
+#define g_gb_n g_gb.n
+#define g_gb_first g_gb.first
+#define g_gb_last g_gb.last
+static void rp_stub_scalar_get_b32(unsigned char *bin, const secp256k1_scalar* a) {
+    RP_PRE(__CPROVER_w_ok(bin, 32) && __CPROVER_r_ok(a, sizeof(*a)), "scalar_get_b32 writes 32 bytes");
+    if (g_gb.n == 0) g_gb.first = bin;
+    g_gb.last = bin; g_gb.n++;
+    __CPROVER_havoc_object(bin);
+}
+#endif
+
+#ifdef RP_STUB_SCALAR_ALG /* scalar multiplication / inversion without a representation precondition (rewind works on
+                             oracle outputs for which only "some scalar object" is known); result < n */
+static void rp_stub_scalar_mul(secp256k1_scalar *r, const secp256k1_scalar *a, const secp256k1_scalar *b) {
+    secp256k1_scalar t = nondet_rp_scalar(); secp256k1_scalar ua = *a, ub = *b; (void)ua; (void)ub;
+    __CPROVER_assume(scalar_ok(&t));
+    *r = t;
+}
+static void rp_stub_scalar_inverse(secp256k1_scalar *r, const secp256k1_scalar *x) {
+    secp256k1_scalar t = nondet_rp_scalar(); secp256k1_scalar ux = *x; (void)ux;
+    __CPROVER_assume(scalar_ok(&t));
+    *r = t;
+}
+#endif
+
+#ifdef RP_STUB_MEMCPY    /* memcpy with the frame over-approximated to the whole destination object (DESIGN 2.4) */
+static void *rp_stub_memcpy(void *dst, const void *src, size_t n) {
+    RP_PRE(__CPROVER_r_ok(src, n) && __CPROVER_w_ok(dst, n), "memcpy source readable and destination writable for n bytes");
+    __CPROVER_havoc_object(dst);
+    return dst;
+}
+#endif
+
+/* ---- the renames: every USE below this line goes to the stub ---- */
+#ifdef RP_STUB_READERS
+# define secp256k1_scalar_set_b32 rp_stub_scalar_set_b32
+# define secp256k1_fe_impl_set_b32_limit rp_stub_fe_set_b32_limit
+# define secp256k1_gej_set_ge rp_adapt_gej_set_ge
+#endif
+#ifdef RP_STUB_XQUAD
+# define secp256k1_ge_set_xquad rp_stub_ge_set_xquad
+#endif
+#ifdef RP_STUB_ISSQUARE
+# define secp256k1_fe_impl_is_square_var rp_stub_fe_is_square_var
+#endif
+#ifdef RP_STUB_ADD_GE
+# define secp256k1_gej_add_ge_var rp_stub_gej_add_ge_var
+#endif
+#ifdef RP_STUB_ADD_VAR
+# define secp256k1_gej_add_var rp_stub_gej_add_var
+# define secp256k1_gej_double_var rp_stub_gej_double_var
+#endif
+#ifdef RP_STUB_SHA
+# define secp256k1_sha256_write rp_stub_sha256_write
+# define secp256k1_sha256_finalize rp_stub_sha256_finalize
+#endif
+#ifdef RP_STUB_PED_SMALL
+# define secp256k1_pedersen_ecmult_small rp_stub_pedersen_ecmult_small
+#endif
+#ifdef RP_STUB_PED
+# define secp256k1_pedersen_ecmult rp_stub_pedersen_ecmult
+#endif
+#ifdef RP_STUB_BORRO_VERIFY
+# define secp256k1_borromean_verify rp_stub_borromean_verify
+#endif
+#ifdef RP_STUB_BORRO_SIGN
+# define secp256k1_borromean_sign rp_stub_borromean_sign
+#endif
+#ifdef RP_STUB_SET_GEJ
+# define secp256k1_ge_set_gej_var rp_stub_ge_set_gej_var
+#endif
+#ifdef RP_STUB_ECMULT
+# define secp256k1_ecmult rp_stub_ecmult
+#endif
+#ifdef RP_STUB_GET_B32
+# define secp256k1_scalar_get_b32 rp_stub_scalar_get_b32
+#endif
+#ifdef RP_STUB_SCALAR_ALG
+# define secp256k1_scalar_mul rp_stub_scalar_mul
+# define secp256k1_scalar_inverse rp_stub_scalar_inverse
+#endif
+#ifdef RP_STUB_MEMCPY
+# define memcpy rp_stub_memcpy
+#endif
+#endif /* any stub */
 #endif
